@@ -385,3 +385,153 @@ theorem unprotectRtcp_kept (S : Suite) (s : Sess) (now : Nat) (pkt : Bytes)
     exact ⟨a, b, c, d, e, f, g⟩
 
 end RtcModel.Srtp
+
+namespace RtcModel.Srtp
+open RtcModel.C04 RtcModel.Generated
+
+/-! ### frame: what an operation on one SSRC leaves alone when nothing is evicted -/
+
+/-- every context of the table was used at or after `T` -/
+def UsedSince (T : Nat) (t : List Ctx) : Prop := ∀ c ∈ t, T ≤ c.lastUsed
+
+theorem evict_noop {t : List Ctx} {T now : Nat} (k : Nat) (h : UsedSince T t) (hn : now < T + ssrcInactivityEvictSecs) :
+    evict t k now = t := by
+  unfold evict
+  split
+  · rfl
+  · apply List.filter_eq_self.mpr
+    intro c hc
+    have := h c hc
+    simp only [ssrcInactivityEvictSecs_val] at hn ⊢
+    exact decide_eq_true (Or.inr (by omega))
+
+theorem lookup_replace_other : ∀ {t : List Ctx} {k : Nat} {c' : Ctx}, c'.ssrc ≠ k →
+    lookup (replace t c') k = lookup t k
+  | [], _, _, _ => rfl
+  | x :: xs, k, c', h => by
+    simp only [replace]
+    split
+    · rename_i hx
+      have hxk : ¬ x.ssrc = k := by rw [hx]; exact h
+      simp [lookup, List.find?_cons, h, hxk]
+    · simp only [lookup, List.find?_cons]
+      split
+      · rfl
+      · exact lookup_replace_other (t := xs) h
+
+theorem lookup_append_other {t : List Ctx} {k : Nat} {c : Ctx} (h : c.ssrc ≠ k) :
+    lookup (t ++ [c]) k = lookup t k := by
+  simp only [lookup, List.find?_append, List.find?_cons, h, decide_false, List.find?_nil, Option.or_none]
+
+theorem Ctx.new_lastUsed {S : Suite} {ssrc : Nat} {p : Profile} {mk ms : Bytes} {now : Nat} {c : Ctx}
+    (h : Ctx.new S ssrc p mk ms now = .ok c) : c.lastUsed = now := by
+  unfold Ctx.new at h
+  split at h
+  · simp at h
+  · simp only [Except.ok.injEq] at h; subst h; rfl
+
+theorem withTx_frame (S : Suite) (s : Sess) (T now ssrc : Nat) (f : Ctx → Except Err Bytes × Ctx)
+    (hu : UsedSince T s.tx) (hT : T ≤ now) (hn : now < T + ssrcInactivityEvictSecs)
+    (hssrc : ∀ c, (f c).2.ssrc = c.ssrc) (hlu : ∀ c, (f c).2.lastUsed = c.lastUsed) :
+    UsedSince T (s.withTx S now ssrc f).2.tx ∧
+    ∀ k, k ≠ ssrc → rocOf (s.withTx S now ssrc f).2.tx k = rocOf s.tx k := by
+  have hev := evict_noop ssrc hu hn
+  cases hl : lookup (evict s.tx ssrc now) ssrc with
+  | some c =>
+    rw [withTx_some S s now ssrc f hl, hev]
+    have hcs : c.ssrc = ssrc := lookup_ssrc hl
+    refine ⟨fun x hx => ?_, fun k hk => ?_⟩
+    · rcases mem_replace hx with h | h
+      · exact hu x h
+      · rw [h, hlu]; exact hT
+    · simp only [rocOf]
+      rw [lookup_replace_other (by rw [hssrc]; show c.ssrc ≠ k; rw [hcs]; exact fun e => hk e.symm)]
+  | none =>
+    cases hn' : Ctx.new S ssrc s.profile s.txMk s.txMs now with
+    | error e =>
+      rw [withTx_none_err S s now ssrc f hl hn', hev]
+      exact ⟨hu, fun _ _ => rfl⟩
+    | ok c =>
+      rw [withTx_none_ok S s now ssrc f hl hn', hev]
+      have hcs : c.ssrc = ssrc := (Ctx.new_ok hn').1
+      refine ⟨fun x hx => ?_, fun k hk => ?_⟩
+      · simp only [List.mem_append, List.mem_singleton] at hx
+        rcases hx with h | h
+        · exact hu x h
+        · rw [h, hlu, Ctx.new_lastUsed hn']; exact hT
+      · simp only [rocOf]
+        rw [lookup_append_other (by rw [hssrc, hcs]; exact fun e => hk e.symm)]
+
+theorem withRx_frame {α : Type} (S : Suite) (r : Sess) (T now ssrc : Nat) (f : Ctx → Except Err α × Ctx)
+    (hu : UsedSince T r.rx) (hT : T ≤ now) (hn : now < T + ssrcInactivityEvictSecs)
+    (hssrc : ∀ c, (f c).2.ssrc = c.ssrc) (hlu : ∀ c, (f c).2.lastUsed = c.lastUsed) :
+    UsedSince T (r.withRx S now ssrc f).2.rx ∧
+    ∀ k, k ≠ ssrc → rocOf (r.withRx S now ssrc f).2.rx k = rocOf r.rx k := by
+  cases hl : lookup r.rx ssrc with
+  | some c =>
+    have hcs : c.ssrc = ssrc := lookup_ssrc hl
+    cases hr : (f c).1 with
+    | error e =>
+      rw [withRx_some_err S r now ssrc f hl hr]
+      refine ⟨fun x hx => ?_, fun k hk => ?_⟩
+      · rcases mem_replace hx with h | h
+        · exact hu x h
+        · rw [h, hlu]; exact hu c (lookup_mem hl)
+      · simp only [rocOf]
+        rw [lookup_replace_other (by rw [hssrc, hcs]; exact fun e => hk e.symm)]
+    | ok a =>
+      rw [withRx_some_ok S r now ssrc f hl hr]
+      have hu' : UsedSince T (replace r.rx { (f c).2 with lastUsed := now }) := by
+        intro x hx
+        rcases mem_replace hx with h | h
+        · exact hu x h
+        · rw [h]; exact hT
+      simp only [evict_noop ssrc hu' hn]
+      refine ⟨hu', fun k hk => ?_⟩
+      simp only [rocOf]
+      rw [lookup_replace_other (by show (f c).2.ssrc ≠ k; rw [hssrc, hcs]; exact fun e => hk e.symm)]
+  | none =>
+    cases hn' : Ctx.new S ssrc r.profile r.rxMk r.rxMs now with
+    | error e => rw [withRx_none_newerr S r now ssrc f hl hn']; exact ⟨hu, fun _ _ => rfl⟩
+    | ok c =>
+      have hcs : c.ssrc = ssrc := (Ctx.new_ok hn').1
+      cases hr : (f c).1 with
+      | error e => rw [withRx_none_err S r now ssrc f hl hn' hr]; exact ⟨hu, fun _ _ => rfl⟩
+      | ok a =>
+        rw [withRx_none_ok S r now ssrc f hl hn' hr]
+        simp only [evict_noop ssrc hu hn]
+        refine ⟨fun x hx => ?_, fun k hk => ?_⟩
+        · simp only [List.mem_append, List.mem_singleton] at hx
+          rcases hx with h | h
+          · exact hu x h
+          · rw [h]; exact hT
+        · simp only [rocOf]
+          rw [lookup_append_other (by show (f c).2.ssrc ≠ k; rw [hssrc, hcs]; exact fun e => hk e.symm)]
+
+theorem protectRtp_lastUsed (S : Suite) (c : Ctx) (p : Pkt) : (c.protectRtp S p).2.lastUsed = c.lastUsed := by
+  unfold Ctx.protectRtp
+  split
+  · rfl
+  · simp only; split <;> rfl
+
+theorem unprotectRtp_lastUsed (S : Suite) (c : Ctx) (h : Hdr) (pad : Bool) (body : Bytes) :
+    (c.unprotectRtp S h pad body).2.lastUsed = c.lastUsed := by
+  rcases unprotectRtp_cases S c h pad body with ⟨_, hr⟩ | ⟨_, _, _, hr⟩ | ⟨_, _, _, _, _, hr⟩ | ⟨_, _, _, _, _, _, hr⟩
+  all_goals rw [hr]
+  all_goals rfl
+
+end RtcModel.Srtp
+
+namespace RtcModel.Srtp
+open RtcModel.C04 RtcModel.Generated
+
+theorem receiveRtp_snd (S : Suite) (s : Sess) (now : Nat) (raw : Bytes) (h : Hdr) (pad : Bool) (body : Bytes)
+    (hp : parseHdr raw = .ok (h, pad, body)) :
+    (s.receiveRtp S now raw).2 = (s.unprotectRtp S now h pad body).2 := by
+  unfold Sess.receiveRtp
+  rw [hp]
+  simp only
+  cases hr : s.unprotectRtp S now h pad body with
+  | mk res s' => cases res <;> rfl
+
+end RtcModel.Srtp
